@@ -258,13 +258,73 @@ def gdb_flavour_part(run, tier):
     run.add_part('gdb_flavour', res)
 
 
+def run_on_tty(argv, text, cwd, env):
+    """Run argv with standard output and standard error on a pseudo-terminal (standard input stays a pipe).
+    -> (everything written to the terminal, exit status)"""
+    import os
+    import pty
+    import select
+    import subprocess
+    import time
+    master, slave = pty.openpty()
+    p = subprocess.Popen(argv, stdin=subprocess.PIPE, stdout=slave, stderr=slave, cwd=cwd, env=env, close_fds=True)
+    os.close(slave)
+    try:
+        p.stdin.write(text.encode())
+        p.stdin.close()
+    except BrokenPipeError:
+        pass
+    chunks = []
+    t_end = time.time() + 60
+    while time.time() < t_end:
+        r, _, _ = select.select([master], [], [], 0.2)
+        if r:
+            try:
+                data = os.read(master, 65536)
+            except OSError:      # EIO: every descriptor of the terminal's other side is closed
+                break
+            if not data:
+                break
+            chunks.append(data)
+        elif p.poll() is not None:
+            break
+    os.close(master)
+    try:
+        rc = p.wait(timeout=10)
+    except subprocess.TimeoutExpired:
+        p.kill()
+        rc = None
+    return b''.join(chunks).decode(errors='replace'), rc
+
+
 def eval_flags(case):
-    """The real command line (stdout is a pipe, so colour is off unless forced)."""
+    """The real command line (stdout is a pipe, so colour is off unless forced; or a terminal, with colour disabled by flag)."""
     import os
     import subprocess
     import tempfile
     V = []
     flags = case['flags']
+    if case.get('tty') or 'matcher' in case:
+        # colour disabled (by flag on a terminal, by flag or by default on a pipe): nothing the tool prints - the complaint
+        # about a malformed matcher given on the command line included - may carry an escape sequence
+        with tempfile.TemporaryDirectory(prefix='verif-c17-') as d:
+            path = os.path.join(d, 'in.log')
+            with open(path, 'w') as f:
+                f.write('\n'.join(universe_lines()[:12]) + '\nplain chatter\n')
+            env = dict(os.environ, PYTHONDONTWRITEBYTECODE='1', TERM='xterm-256color')
+            argv = ['/venv/bin/python', os.path.join(sut.REPO, 'main.py')] + flags + case.get('matcher', []) + ['-l', path]
+            text = 'list wl_surface\nfilter wl_surface.[commit\nq\n'
+            if case.get('tty'):
+                shown, rc = run_on_tty(argv, text, d, env)
+            else:
+                p = subprocess.run(argv, input=text, capture_output=True, text=True, env=env, cwd=d, timeout=60)
+                shown, rc = p.stdout + p.stderr, p.returncode
+            if ESC in shown:
+                i = shown.index(ESC)
+                V.append(Violation('colour.escape_when_disabled', case, {'around': shown[max(0, i - 80):i + 40], 'exit_status': rc}))
+            if rc is None or not shown.strip():
+                V.append(Violation('colour.cli_silent', case, {'exit_status': rc, 'shown': shown[:200]}))
+        return Eval(V, outcome=[flags, case.get('matcher'), bool(case.get('tty')), ESC in shown], nontrivial=True, transitions=1)
     want_colour = '--color' in flags and '-C' not in flags and '--no-color' not in flags
     with tempfile.TemporaryDirectory(prefix='verif-c17-') as d:
         path = os.path.join(d, 'in.log')
@@ -283,6 +343,11 @@ def gen_flags(tier):
     for flags in ([], ['-C'], ['--color'], ['-C', '--color'], ['--color', '-C'], ['--no-color', '--color'], ['--color', '--no-color'],
                   ['--color', '--color'], ['-C', '-C'], ['--supress', '--color', '-C']):
         yield {'flags': flags}
+    matchers = [[], ['-f', 'wl_surface'], ['-f', 'wl_surface.[commit'], ['-b', '(('], ['-f', 'a.b.c.d'], ['-b', 'x@y@z'], ['-f', '"unterminated'],
+                ['-f', 'a:b:c'], ['-b', '!!x'], ['-f', '(a=b=c)']]
+    for m in matchers:
+        for flags, tty in ((['-C'], True), (['--no-color'], True), (['--color', '-C'], True), (['-C'], False), ([], False)):
+            yield {'flags': flags, 'matcher': m, 'tty': tty}
 
 
 def run(run, tier, seed):
